@@ -28,6 +28,7 @@ type Profile struct {
 	MapNShare   int
 	UnobsWrites bool // allow writes to unobserved vars from inside a pass
 	Cycles      bool // AddInput may close a cycle
+	Inner       int  // share of Observe operations aimed at a node created inside a bind scope (out of 100)
 	Wide        bool // MapN nodes with 65..150 inputs (past the edge index threshold)
 	Memo        int  // share of binds that are BindMemoized (out of 100)
 	WPurge      int  // weight of cache Purge/Clear operations
@@ -251,6 +252,19 @@ func (g *Gen) Next() Op {
 			}
 		case k < p.WNew+p.WObserve:
 			nodes := g.userNodes()
+			if g.R.Intn(100) < p.Inner {
+				// a node a bind function created, still part of the graph (a handle the user
+				// function could have kept); never a handle whose storage the library reissued
+				var inner []int
+				for id, ref := range g.E.Nodes {
+					if ref != nil && ref.Scope != -1 && ref.Inc != nil && !ref.Recycled && g.E.Registered(id) {
+						inner = append(inner, id)
+					}
+				}
+				if len(inner) > 0 {
+					return Op{K: "Observe", A: g.pick(inner)}
+				}
+			}
 			if len(nodes) > 0 {
 				return Op{K: "Observe", A: g.pickBiased(nodes)}
 			}
